@@ -1358,8 +1358,41 @@ fn gen_c02(tier: &str, r: &Rng, o: &mut Out<'_>) {
             emit(o, true, "b0t0", &[concat(&pkts)]);
         }
     }
+    // PES_packet_length at the top of its 16-bit range (the packet really is that long), and declared
+    // lengths that disagree with the bytes present (0xfffa..=0xffff, 1, actual +- 1): the filter does not
+    // look at the field, every byte up to the next unit start is delivered (seeded change C02-r11m2:
+    // a bounded-length bookkeeping whose u16 addition overflows for the last six values)
+    let nbig = if tier == "thorough" { 24 } else { 3 };
+    for k in 0..nbig {
+        let mut m = Mux::new(r);
+        let pat = pat_section(1, 0, &[(1, 0x100)]);
+        let pmt = pmt_section(1, 0, 0x101, &[], &[(0x1b, 0x101, vec![])]);
+        let mut pkts = m.section(0, &pat, &simple_plan(pat.len()));
+        pkts.extend(m.section(0x100, &pmt, &simple_plan(pmt.len())));
+        let want = 65535 - (k % 6);                      // PES_packet_length
+        let spec = PesSpec { sid: 0xe0, pts: Some(r.next() & 0x1_ffff_ffff), dts: None, flags_extra: 0, ext_bytes: 0,
+            declared_len: Some(want as u16), payload: r.bytes(want - 3 - 5) };
+        pkts.extend(m.pes(0x101, &spec, true));
+        pkts.extend(m.pes(0x101, &rand_pes(r, 100), true));
+        emit(o, true, "b0t0", &[concat(&pkts)]);
+    }
+    let nlen = if tier == "thorough" { 6_000 } else { 200 };
+    for _ in 0..nlen {
+        let mut m = Mux::new(r);
+        let pat = pat_section(1, 0, &[(1, 0x100)]);
+        let pmt = pmt_section(1, 0, 0x101, &[], &[(0x1b, 0x101, vec![])]);
+        let mut pkts = m.section(0, &pat, &simple_plan(pat.len()));
+        pkts.extend(m.section(0x100, &pmt, &simple_plan(pmt.len())));
+        for _ in 0..(1 + r.below(3)) {
+            let mut spec = rand_pes(r, 600);
+            let actual = spec.payload.len();
+            spec.declared_len = Some(match r.below(6) { 0 => 0xfffa + r.below(6) as u16, 1 => 1, 2 => (actual as u16).wrapping_add(1), 3 => (actual as u16).saturating_sub(1), 4 => r.below(65536) as u16, _ => r.below(40) as u16 });
+            pkts.extend(m.pes(0x101, &spec, r.chance(1, 2)));
+        }
+        emit(o, false, "b0t0", &rand_pushes(r, &pkts));
+    }
     mixed_scenarios(tier, r, o, "C02");
-    o.meta("plans", "1-3 programs, 1-4 streams, PES payload 0..=700, every header shape, stuffing, AF-only packets, repeated tables");
+    o.meta("plans", "1-3 programs, 1-4 streams, PES payload 0..=700, every header shape, stuffing, AF-only packets, repeated tables; PES_packet_length 65530..=65535 with that many bytes; declared lengths disagreeing with the bytes present");
 }
 
 fn gen_c10(tier: &str, r: &Rng, o: &mut Out<'_>) {
